@@ -126,13 +126,33 @@ func c19makeFont(r *rand.Rand, n, kind int, nonPrintable bool) *c19font {
 			ft.runes[glyph.ID(g)] = c
 		}
 		if nonPrintable && n > 2 {
-			// e.g. the no-break space next to the space, as real fonts have it
-			g := glyph.ID(1 + r.IntN(n-1))
-			c := []rune{0x00A0, 0x00AD, 0x007F, 0x2028}[r.IntN(4)]
-			m[uint16(c)] = g
-			ft.lower[c] = g
-			if old, ok := ft.runes[g]; !ok || c > old {
-				ft.runes[g] = c
+			// e.g. the no-break space next to the space, as real fonts have
+			// it; and glyphs that are mapped from control characters only
+			// (".null" from U+0000 and U+0008, "nonmarkingreturn" from U+000D)
+			pool := []rune{0x00A0, 0x00AD, 0x007F, 0x2028, 0x0000, 0x0001, 0x0007, 0x0008, 0x0009, 0x000A, 0x000B, 0x000C, 0x000D, 0x001B, 0x001D,
+				0x0080, 0x0085, 0x009F, 0x200B, 0x200E, 0x2029, 0xD800, 0xDFFF, 0xE000, 0xFEFF, 0xFFFE, 0xFFFF}
+			for rep := 0; rep < 1+r.IntN(3); rep++ {
+				g := glyph.ID(1 + r.IntN(n-1))
+				if old, ok := ft.runes[g]; ok && r.IntN(2) == 0 && strconv.IsPrint(old) {
+					// no printable character leads to this glyph
+					delete(m, uint16(old))
+					delete(ft.lower, old)
+					delete(ft.runes, g)
+				}
+				for j := 0; j < 1+r.IntN(2); j++ {
+					c := pool[r.IntN(len(pool))]
+					if rep == 0 && j == 0 {
+						c = pool[r.IntN(4)]
+					}
+					if _, used := ft.lower[c]; used {
+						continue
+					}
+					m[uint16(c)] = g
+					ft.lower[c] = g
+					if old, ok := ft.runes[g]; !ok || c > old {
+						ft.runes[g] = c
+					}
+				}
 			}
 		}
 		f.CMapTable = cmap.Table{{PlatformID: 3, EncodingID: 1}: m.Encode(0)}
